@@ -2,6 +2,7 @@
 C16 — Registering a name charges the listed price and yields a live name for the term.
 -/
 import Canine.Proofs.Rns
+import Canine.Generated.PureFns
 namespace Canine.Rns
 open Bank
 
@@ -163,5 +164,30 @@ example : ((handle expiredState 200 "carol" (.register "CAROL" "foo.jkl" "foo.jk
     (fun s => (bal s.bank "carol" "ujkl", bal s.bank "pol" "ujkl", (AMap.get s.names "foo.jkl").map (·.expires))))
     = some (40000000, 60000000, some (200 + yearBlocks)) := by decide
 #guard validateBasic (.register "carol" "foo.jkl" "foo.jkl" "{}" 1 false)
+
+/-! ## The price table as it stands in the source (regenerated tie) -/
+
+/-- `GetCostOfName`, translated from x/rns/keeper/utils.go on every run, is the model's
+`costOfName` for names whose byte length is their character count (names are ASCII: `ValidateBasic`
+admits no other), its only outside input being the TLD's base cost. -/
+theorem C16_generated_price_table_is_the_model (name tld : String)
+    (hascii : name.utf8ByteSize = name.length) :
+    Generated.Pure.GetCostOfName (tldCost tld) name tld = costOfName name tld ∧
+    Generated.Pure.GetCostOfName_inputs = ["GetCost(tld)"] := by
+  refine ⟨?_, rfl⟩
+  unfold Generated.Pure.GetCostOfName costOfName
+  rw [hascii]
+  rcases hl : name.length with _ | _ | _ | _ | _ | k
+  · simp
+  · simp
+  · simp
+  · simp
+  · simp
+  · have a : ¬ ((k:Int) + 1 + 1 + 1 + 1 + 1 = 0) := by omega
+    have b : ¬ ((k:Int) + 1 + 1 + 1 + 1 + 1 = 1) := by omega
+    have c : ¬ ((k:Int) + 1 + 1 + 1 + 1 + 1 = 2) := by omega
+    have d : ¬ ((k:Int) + 1 + 1 + 1 + 1 + 1 = 3) := by omega
+    have e : ¬ ((k:Int) + 1 + 1 + 1 + 1 + 1 = 4) := by omega
+    simp [a, b, c, d, e]
 
 end Canine.Rns
